@@ -34,7 +34,10 @@ before truncation), inode and instance, and the running-link clause; C13.3 via
 flags and None-results from the file loop; C13.4 a created event configures
 only when no running link exists; C13.5 the ready marker is recognised before
 dot names are ignored; C13.7 the new generation stays in the to-configure set;
-thorough: only the owner modules write running / cleanup links.
+thorough: only the owner modules write running / cleanup links. Fourth round:
+C13.3 a container with neither link ends the resync started or handed to
+clean-up, and the monitor writes the aborted flag before it moves the running
+link.
 Does NOT decide interleavings of events with clean-up completion.
 """
 
